@@ -1,8 +1,9 @@
 (* Model of src/Reduino/Core/__init__.py : the host-side pin simulation.
    Three module-level dicts keyed by the normalised pin.  Definitions only
-   (proofs in Proofs/CoreP.v).  Faithful to the code including the stored
-   pull-up level (pin_mode(p, INPUT_PULLUP) *stores* HIGH when p has no digital
-   entry, and nothing ever removes it).
+   (proofs in Proofs/CoreP.v).  Faithful to the code as repaired by the commit
+   "fix: Core.pin_mode no longer stores the pull-up level ...": pin_mode records
+   the mode and nothing else; _digital_values holds exactly what digital_write
+   stored; digital_read answers an unwritten pin from its current mode.
 
    Outside the model: pins that are neither int nor str (True/7.0 hash like 7,
    unhashable pins raise), str pins with non-ASCII isdigit() characters,
@@ -95,14 +96,7 @@ Definition aread (s : core) (p : pin) : Z :=
 Definition step (s : core) (o : op) : core * res :=
   match o with
   | PinMode p m =>
-      let k := normalise p in
-      let ms := store k m (modes s) in
-      match lookup k (dig s) with
-      | Some _ => (mkCore ms (dig s) (ana s), RNone)
-      | None =>
-          if is_pullup m then (mkCore ms (store k HIGH (dig s)) (ana s), RNone)
-          else (mkCore ms (dig s) (ana s), RNone)
-      end
+      (mkCore (store (normalise p) m (modes s)) (dig s) (ana s), RNone)
   | DWrite p v =>
       (mkCore (modes s) (store (normalise p) (if truthy v then HIGH else LOW) (dig s)) (ana s), RNone)
   | AWrite p v =>
@@ -148,22 +142,19 @@ Definition norm_op (o : op) : op :=
 Record hist : Type := mkHist {
   h_dw : option bool;      (* last digital_write to k (as bool(value)) *)
   h_aw : option Z;         (* last successful analog_write to k, clamped/rounded *)
-  h_mode : option text;    (* current mode of k *)
-  h_stale : bool           (* k was put in INPUT_PULLUP while it had never been written *)
+  h_mode : option text     (* current mode of k *)
 }.
 
-Definition hist0 : hist := mkHist None None None false.
+Definition hist0 : hist := mkHist None None None.
 
 Definition hstep (k : pin) (h : hist) (o : op) : hist :=
   if pin_eqb (normalise (op_pin o)) k then
     match o with
-    | PinMode _ m =>
-        mkHist (h_dw h) (h_aw h) (Some m)
-               (match h_dw h with Some _ => h_stale h | None => h_stale h || is_pullup m end)
-    | DWrite _ v => mkHist (Some (truthy v)) (h_aw h) (h_mode h) (h_stale h)
+    | PinMode _ m => mkHist (h_dw h) (h_aw h) (Some m)
+    | DWrite _ v => mkHist (Some (truthy v)) (h_aw h) (h_mode h)
     | AWrite _ v =>
         match analog_of v with
-        | Some z => mkHist (h_dw h) (Some z) (h_mode h) (h_stale h)
+        | Some z => mkHist (h_dw h) (Some z) (h_mode h)
         | None => h
         end
     | DRead _ | ARead _ => h
@@ -184,11 +175,3 @@ Definition ref_dread (h : hist) : Z :=
 
 Definition ref_aread (h : hist) : Z :=
   match h_aw h with Some z => z | None => 0 end.
-
-(* guard of the partial theorem: the pin has been written, or it was never put in
-   INPUT_PULLUP (while unwritten) before its current non-pull-up mode *)
-Definition guard (h : hist) : bool :=
-  match h_dw h with
-  | Some _ => true
-  | None => negb (h_stale h) || mode_is_pullup (h_mode h)
-  end.
